@@ -510,15 +510,21 @@ func init() {
 	suites["HIST"] = func(g *G) {
 		perKind := g.n(10, 120)
 		byKind := map[string][]c18Val{}
+		verifying := map[string][]c18Val{} // values whose signature verifies: H3/E1 and the C06 tags need them
 		var kinds []string
 		for _, v := range c18Pool(g) {
-			if val, _, _ := c18Build(v.kind, unhx(v.hex), atoi(v.aux)); val == nil {
+			val, _, _ := c18Build(v.kind, unhx(v.hex), atoi(v.aux))
+			if val == nil {
 				continue
 			}
-			if len(byKind[v.kind]) == 0 {
+			if len(byKind[v.kind]) == 0 && len(verifying[v.kind]) == 0 {
 				kinds = append(kinds, v.kind)
 			}
-			byKind[v.kind] = append(byKind[v.kind], v)
+			if has, ok := verifySucceeds(val); has && ok {
+				verifying[v.kind] = append(verifying[v.kind], v)
+			} else {
+				byKind[v.kind] = append(byKind[v.kind], v)
+			}
 		}
 		// identities with a NULL certificate (their key types are implied, not stored in the certificate)
 		for _, k := range []string{"kac", "dest", "rid"} {
@@ -527,14 +533,20 @@ func init() {
 				byKind[k] = append([]c18Val{{k, nb, "0"}}, byKind[k]...)
 			}
 		}
-		for _, kind := range kinds {
-			vs := byKind[kind]
-			n := perKind
+		spread := func(vs []c18Val, n int) []c18Val {
 			if n > len(vs) {
 				n = len(vs)
 			}
+			var out []c18Val
 			for i := 0; i < n; i++ {
-				v := vs[i*len(vs)/n] // spread over the pool, not its first entries
+				out = append(out, vs[i*len(vs)/n]) // spread over the pool, not its first entries
+			}
+			return out
+		}
+		for _, kind := range kinds {
+			vs := spread(verifying[kind], (perKind+1)/2)
+			vs = append(vs, spread(byKind[kind], perKind-len(vs))...)
+			for i, v := range vs {
 				g.gen = "history-" + v.kind
 				g.emit("!history", v.kind, v.hex, v.aux)
 				if i < g.n(3, 20) {
